@@ -347,6 +347,25 @@ def h_the_evaluate_stream(with_var):
                    covers=["completed", "less", "greater"])
 
 
+def h_bound_mention():
+    """a quantifier that is met again while it is already bound (selected by an enclosing query AND used in its condition) passes the
+    bindings through and leaves the state of its running evaluation alone (nothing on the node is written except the parent pointer)"""
+    def run(vm):
+        ctx = vm.ctx
+        for qcls in ("An", "The"):
+            q, n = quantifier_obj(vm, qcls, None, True)
+            q.fields["_is_false_"] = False
+            before = {k: v for k, v in q.fields.items()}
+            HV = cls(vm, "krrood.entity_query_language.hashed_data", "HashedValue")
+            src = make_dict([(3, vm.alloc(HV, {"value": SInt(ctx.fresh_int("bound")), "id_": 0})), (7, vm.alloc(HV, {"value": SInt(ctx.fresh_int("sol")), "id_": 1}))])
+            out = list(vm.iterate(vm.call(vm._getattr(q, "_evaluate__"), [src], {"parent": vm.alloc(cls(vm, SYM, "SymbolicExpression"), {"_id_": 99}, tag="enclosing")})))
+            ok_out = len(out) == 1 and out[0].fields["bindings"] is src and out[0].fields["is_false"] is False
+            ctx.check("ResultQuantifier._evaluate__::an-already-bound-quantifier-passes-the-bindings-through-once", z3.BoolVal(bool(ok_out)), detail=repr(out))
+            changed = sorted(k for k in set(before) | set(q.fields) if k != "_eval_parent_" and (k not in before or k not in q.fields or q.fields[k] is not before[k]))
+            ctx.check("ResultQuantifier._evaluate__::a-second-mention-leaves-the-running-evaluation-alone", z3.BoolVal(not changed), detail=f"{qcls}: fields written {changed}")
+    return Harness("bound-mention", run, spec=make_spec())
+
+
 def h_the_evaluate():
     """The.evaluate() == list(super().evaluate())[0] against the stream contract of The._evaluate__."""
     def run(vm):
@@ -480,5 +499,5 @@ def harnesses():
         for wv in (False, True):
             hs.append(h_evaluate(has_c, has_u, wv))
     hs += [h_the_evaluate_stream(False), h_the_evaluate_stream(True), h_the_evaluate(), h_evaluate_maps_results(),
-           h_an_the_passthrough(), h_canary()]
+           h_an_the_passthrough(), h_bound_mention(), h_canary()]
     return hs
